@@ -39,7 +39,7 @@ REQUIRED_MONITORS = ["F-matches-own-geometry", "DF-matches-own-geometry", "invF-
                      "divergence-theorem-mesh", "affine-equals-isoparametric", "subset-spellings-agree",
                      "facetbasis-normals-dx"]
 REQUIRED_REACH = ["per-cell-layout", "tind-none", "tind-permuted", "tind-repeated", "curved-mesh", "mirrored-mesh",
-                  "interior-facets", "newton-inverse-nontrivial", "affine-flag-flipped", "many-points-per-cell"]
+                  "interior-facets", "newton-inverse-nontrivial", "affine-flag-flipped", "many-points-per-cell", "same-points-other-subset"]
 
 
 class OwnGeom:
@@ -140,6 +140,18 @@ def cell_maps(ctx, k, kind):
                 ctx.reached("newton-inverse-nontrivial")
             if unequal:
                 ctx.nontrivial(mname, cname, "cell-maps", "percell" if percell else "shared", sname, geom)
+    # the same reference points with two different cell subsets of equal length, one after the other on the same
+    # mapping object (what two bases on different subdomains of one mesh do)
+    if nt >= 4:
+        Xs = GEO.random_ref_points(rng, kind, 3)
+        pa = rng.permutation(nt)
+        ta, tb = pa[:2].astype(np.int32), pa[2:4].astype(np.int32)
+        for tsel in (ta, tb, ta[::-1].copy()):
+            for meth, ref in (("DF", own.DF(Xs, tsel)), ("detDF", GEO.det(own.DF(Xs, tsel))), ("F", own.F(Xs, tsel))):
+                got = getattr(mapping, meth)(Xs, tsel)
+                ctx.close("subset-spellings-agree", got, ref, rtol=1e-10, scale=float(np.abs(ref).max()) + 1e-300,
+                          mech=f"same-points-other-subset:{meth}:{mname}", mesh=cname, geom=geom, tind=tsel.tolist())
+        ctx.reached("same-points-other-subset")
     # many points per cell on a small anisotropic copy of the mesh (as a high-order facet rule produces them): the
     # inverse map must still return, and return the points
     if kind in ("quad", "hex") or mc.order == 2:
